@@ -115,7 +115,7 @@ func (o *recObserver) OnFooter(plumbing.Hash) error { return nil }
 
 func run(c *vf.Ctx) {
 	g := gitx.New(c.Scratch)
-	nRepos := c.N(5, 20)
+	nRepos := c.N(5, 14)
 	perRepo := c.N(13, 30)
 
 	// ---- seed repositories
@@ -222,17 +222,17 @@ func run(c *vf.Ctx) {
 
 	c.Extra("git_invocations", gitx.Calls.Load())
 	c.Extra("max_delta_depth_seen", maxDepthSeen)
-	c.Floor("packs evaluated", c.Counter("packs"), c.N(60, 450))
-	c.Floor("pack x mode evaluations", c.Counter("mode_runs"), c.N(280, 2200))
-	c.Floor("idx files compared byte-for-byte", c.Counter("idx_cmp"), c.N(120, 900))
-	c.Floor("rev files compared byte-for-byte", c.Counter("rev_cmp"), c.N(120, 900))
-	c.Floor("delta entries resolved and compared", c.Counter("delta_entries"), c.N(800, 8000))
-	c.Floor("thin packs completed by both", c.Counter("thin_packs_completed"), c.N(6, 50))
-	c.Floor("thin external bases resolved", c.Counter("thin_external_bases"), c.N(8, 80))
-	c.Floor("sha256 packs", c.Counter("sha256_packs"), c.N(8, 80))
-	c.Floor("packs with object > 1MiB", c.Counter("huge_packs"), c.N(3, 30))
+	c.Floor("packs evaluated", c.Counter("packs"), c.N(60, 320))
+	c.Floor("pack x mode evaluations", c.Counter("mode_runs"), c.N(280, 1500))
+	c.Floor("idx files compared byte-for-byte", c.Counter("idx_cmp"), c.N(120, 650))
+	c.Floor("rev files compared byte-for-byte", c.Counter("rev_cmp"), c.N(120, 650))
+	c.Floor("delta entries resolved and compared", c.Counter("delta_entries"), c.N(800, 5000))
+	c.Floor("thin packs completed by both", c.Counter("thin_packs_completed"), c.N(6, 35))
+	c.Floor("thin external bases resolved", c.Counter("thin_external_bases"), c.N(8, 50))
+	c.Floor("sha256 packs", c.Counter("sha256_packs"), c.N(8, 60))
+	c.Floor("packs with object > 1MiB", c.Counter("huge_packs"), c.N(3, 20))
 	c.Floor("max delta depth seen", maxDepthSeen, 10)
-	c.Floor("go-git output read by git", c.Counter("git_reads_gogit_output"), c.N(50, 450))
+	c.Floor("go-git output read by git", c.Counter("git_reads_gogit_output"), c.N(50, 320))
 	c.Assume("git 2.39.5 index-pack/pack-objects are the reference; pack v2 / idx v2 / rev v1 formats are unchanged through git 2.54")
 	c.Assume("packs with duplicated entries are hand-concatenated from git's own entries (git accepts them in index-pack/fetch but never emits them itself; only OFS_DELTA packs, since git dies on a duplicated REF_DELTA base)")
 	c.Assume("idx entries with 64-bit offsets (packs > 2 GiB) are not produced here; covered synthetically by C10")
